@@ -1020,12 +1020,22 @@ impl<'a, 'ast> Typecheck<'a, 'ast> {
                             .chain(expected_record_type.type_field_iter().map(|f| &f.name))
                             .collect();
 
+                        // The order of the fields is the layout of the record value so the fields
+                        // must also appear in the same order as in the expected type. The fields
+                        // of a base record (`{ x = 1, .. base }`) are part of the value as well.
+                        let same_field_order = base.is_none()
+                            && fields
+                                .iter()
+                                .map(|f| &f.name.value)
+                                .eq(expected_record_type.row_iter().map(|f| &f.name));
+
                         let expected_fields_matches = fields
                             .iter()
                             .map(|f| &f.name.value)
                             .chain(types.iter().map(|f| &f.name.value))
                             .all(|name| expected_fields.remove(&name))
-                            && expected_fields.is_empty();
+                            && expected_fields.is_empty()
+                            && same_field_order;
 
                         if expected_fields_matches {
                             // No need to do subsumption checking against the expected type as all the
